@@ -86,7 +86,7 @@ Lemma header_trailing_comment_shape :
 Proof. split; vm_compute; reflexivity. Qed.
 
 (* REPAIRED (was else_trailing_comment_refuted; the general statement is the round trip, whose
-   guard now admits a trailing comment on elif / else / except): the former witness parses like
+   guard now allows a trailing comment on elif / else / except): the former witness parses like
    its comment-free version, the else branch is a branch *)
 Lemma else_trailing_comment_witness :
   map erase (parse_lines w_else_comment) = map erase (parse_lines w_else_plain)
